@@ -787,12 +787,36 @@ fn documents(cfg: &Cfg, rep: &mut Report, h: u64, steps: usize, to_max: bool) {
             w.set_time(1_700_000_000 + step as u64 * 10);
         }
         let ts = e.ledger().timestamp();
-        let k = rng.below(100);
+        let mut k = rng.below(100);
         let grow = to_max || docs.len() < 60;
-        let bulk = !to_max && step < 58; // reach the second bucket early, then churn
+        // the capacity run fills up first (new names, valid content) and then stays within a few entries
+        // of the limit, where updates of stored names, new names and removals alternate
+        let far_from_limit = to_max && docs.len() + 6 < 5000;
+        let at_limit_play = to_max && !far_from_limit;
+        if at_limit_play {
+            k = if rng.chance(2, 3) { 0 } else { 99 };
+        }
+        let bulk = (!to_max && step < 58) || (far_from_limit && rng.chance(49, 50)); // reach the second bucket early, then churn
         let (desc, want, r): (String, bool, Result<(), Fail>);
         if bulk || k < if grow { 75 } else { 45 } {
-            let i = if !bulk && rng.chance(1, 5) && !docs.is_empty() { *docs.keys().nth(rng.idx(docs.len())).unwrap() } else { let x = fresh % universe; fresh += 1; x };
+            let update_stored = !bulk && !docs.is_empty() && rng.chance(if at_limit_play { 1 } else { 1 }, if at_limit_play { 2 } else { 5 });
+            let i = if update_stored {
+                *docs.keys().nth(rng.idx(docs.len())).unwrap()
+            } else if to_max {
+                let mut x = fresh % universe;
+                while docs.contains_key(&x) {
+                    x = (x + 1) % universe;
+                }
+                fresh += 1;
+                x
+            } else {
+                let x = fresh % universe;
+                fresh += 1;
+                x
+            };
+            if docs.len() == 5000 {
+                rep.count(if docs.contains_key(&i) { "stored_document_updated_at_capacity" } else { "new_document_offered_at_capacity" });
+            }
             let ulen = if bulk { 5 } else { *rng.pick(&[0usize, 5, 199, 200, 201]) };
             let uri: String = "u".repeat(ulen);
             let hsh: [u8; 32] = rng.bytes();
@@ -1242,7 +1266,7 @@ pub fn run(cfg: &Cfg, rep: &mut Report) {
             token_binder(cfg, rep, 900_001, 400, true);
         }
         if cfg.shard == 1 && cfg.runs(900_002) {
-            documents(cfg, rep, 900_002, 5_600, true);
+            documents(cfg, rep, 900_002, 5_800, true);
         }
     }
     rep.floor_on("key_reached_20_registries", 1, &["key_reached_20_registries"]);
@@ -1251,6 +1275,9 @@ pub fn run(cfg: &Cfg, rep: &mut Report) {
     rep.floor_on("topics_at_limit", 1, &["topics_at_limit"]);
     rep.floor_on("modules_at_limit", 1, &["modules_at_limit"]);
     if cfg.thorough() {
+        rep.floor_on("docs_at_max", 1, &["docs_at_max"]);
+        rep.floor_on("stored_document_updated_at_capacity", 1, &["stored_document_updated_at_capacity"]);
+        rep.floor_on("new_document_offered_at_capacity", 1, &["new_document_offered_at_capacity"]);
         rep.floor_on("single_bind_at_capacity", 1, &["single_bind_at_capacity"]);
         rep.floor_on("binder_at_max", 1, &["binder_at_max"]);
         rep.floor_on("batch_fills_binder_exactly", 1, &["batch_fills_binder_exactly"]);
